@@ -94,7 +94,7 @@ def main():
 
     spec = {'ranges': {'label': 'c12', 'code': {'name': 'Toric2DCode', 'parameters': [{'L_x': s, 'L_y': s} for s in a['sizes']]},
                        'error_model': {'name': 'PauliErrorModel', 'parameters': {'r_x': 0.25, 'r_y': 0.25, 'r_z': 0.5}},
-                       'decoder': {'name': 'MatchingDecoder', 'parameters': {}}, 'error_rate': a['rates']}}
+                       'decoder': {'name': 'MatchingDecoder', 'parameters': a.get('decs', [{}])}, 'error_rate': a['rates']}}
     with contextlib.redirect_stdout(io.StringIO()):
         b = read_input_dict(spec, a['out'], verbose=False, save_frequency=a['save_freq'], update_frequency=1000)
         b.run(a['target'])
